@@ -4,6 +4,7 @@ import (
 	"bytes"
 	"compress/zlib"
 	"fmt"
+	"sort"
 	"strconv"
 	"strings"
 
@@ -301,7 +302,19 @@ func (g *gen) dgramInput() input {
 	if len(dg) > g.maxLen {
 		dg = dg[:g.maxLen]
 	}
-	return input{Kind: "dgram", Class: class, NS: hlib.Pick(r, namespaces), Data: lexgen.ToInts(dg), LogBad: r.Chance(1, 3)}
+	in := input{Kind: "dgram", Class: class, NS: hlib.Pick(r, namespaces), Data: lexgen.ToInts(dg), LogBad: r.Chance(1, 3)}
+	if r.Chance(1, 3) && len(dg) > 0 {
+		// the same bytes arriving as 2-4 datagrams (cut anywhere, also inside a line)
+		n := r.Range(1, 3)
+		cuts := make([]int, n)
+		for i := range cuts {
+			cuts[i] = r.Intn(len(dg) + 1)
+		}
+		sort.Ints(cuts)
+		in.Cuts, in.Batch = cuts, r.Bool()
+		in.Class += "-cut"
+	}
+	return in
 }
 
 // ---------------------------------------------------------------------------------------
@@ -469,6 +482,6 @@ func (g *gen) httpInput() input {
 	if r.Chance(1, 12) {
 		in.ReadFail = hlib.Pick(r, []string{"short", "badchunk"})
 	}
-	in.Class = "http-" + ep + "/" + shape + "/" + codec + "/" + mut
+	in.Class = "http-" + ep + "/" + shape + "-" + mut
 	return in
 }
